@@ -1,4 +1,4 @@
-SPECIFICATION SpecC16
+SPECIFICATION SpecC16R
 CONSTANTS
   Instr = {"i0", "i3"}
   Asset = {"a0", "a5"}
@@ -9,7 +9,10 @@ CONSTANTS
   MaxClosed = 1
   MaxBal = 1
   MaxVals = 0
-INVARIANTS TypeC16 GenerateIsBatch AccSheet WinRateSane ProfitFactorSane OrderFreeC16
-PROPERTIES Keyed Additive LatestBalance PersistIsStutter
+  Gaps <- GapsSmall
+  RFs <- RFsQuick
+  Ivs = {"Daily", "Hours2"}
+INVARIANTS TypeC16 GenerateIsBatch AccSheet WinRateSane ProfitFactorSane OrderFreeC16 AccRatios Conventions
+PROPERTIES Keyed Additive LatestBalance PersistIsStutter KeyedRatios ResetIsFresh
 CHECK_DEADLOCK FALSE
 VIEW View
